@@ -211,8 +211,11 @@ pub enum Op {
     /// the NEXT op is killed at its k-th kill point and the run continues from the
     /// durable state of that instant (crash mode)
     Crash(u32),
-    /// the NEXT store op has its k-th fail-point call fail
+    /// the NEXT mutating op (store / remove / vanish) has its k-th fail-point call fail
     Fail(u32),
+    /// the NEXT mutating op runs while every slot of LMDB's reader table is taken
+    /// (read transactions held open through the public API): read_txn() fails inside it
+    Starve,
 }
 
 impl Op {
@@ -240,10 +243,11 @@ impl Op {
             Op::Has(_) => "has",
             Op::Crash(_) => "crash",
             Op::Fail(_) => "fail",
+            Op::Starve => "starve",
         }
     }
     pub fn is_modifier(&self) -> bool {
-        matches!(self, Op::Crash(_) | Op::Fail(_))
+        matches!(self, Op::Crash(_) | Op::Fail(_) | Op::Starve)
     }
 }
 
@@ -532,6 +536,7 @@ impl Op {
             Op::Has(id) => format!("has id={}", hex(id)),
             Op::Crash(k) => format!("crash k={k}"),
             Op::Fail(k) => format!("fail k={k}"),
+            Op::Starve => "starve".into(),
         }
     }
 
@@ -562,6 +567,7 @@ impl Op {
             "has" => Op::Has(unhex32(kv.get("id")?)?),
             "crash" => Op::Crash(kv.get("k")?.parse().map_err(e)?),
             "fail" => Op::Fail(kv.get("k")?.parse().map_err(e)?),
+            "starve" => Op::Starve,
             x => return Err(format!("unknown op {x}")),
         })
     }
